@@ -30,6 +30,7 @@ def run(facts, tr, rep):
     A = rl.acquire
     rep.saw(A)
     g = graph(A)
+    tr_w, tr = tr, rl.atr         # the acquire future: view with the helpers between it and the try-acquire functions inlined
     rep.floor("C02.try-acquire-calls-in-acquire", len(rl.tcalls), 1)
     tnodes = {c.bb: ("call", A.crate.name, A.def_, c.bb) for (c, _fb) in rl.tcalls}
     # ---------------------------------------------------------------- PROTOCOL
@@ -81,6 +82,7 @@ def run(facts, tr, rep):
         rep.ob("C02.SLEEP", skey(A, "sleep"), bool(doms) and not consumed and from_result, c.where(),
                "sleep is reached only on the must-wait edge and lasts the wait the window state asked for" if doms and not consumed and from_result else
                "sleep is not confined to the must-wait edge of a try-acquire result / its duration is not that result")
+    tr = tr_w
     # ---------------------------------------------------------------- window states
     rep.floor("C02.window-states", len(rl.windows), 3)
     for W in rl.windows:
@@ -144,6 +146,16 @@ def _consume_sites(facts, tr, W, adt):
         if v[0] == "binop" and v[1] in ("Add", "AddWithOverflow", "Sub", "SubWithOverflow"):
             a, bnode = peel(v[2]), peel(v[3])
             if a[0] == "field" and a[2] == fname and bnode[0] == "const" and bnode[3] == "1":
+                out.append((i, j, fname, "step"))
+        # `if let Some(rest) = self.f.checked_sub(1) { self.f = rest; .. }`: a step whose Some edge is its own capacity guard
+        w_ = val
+        while w_[0] in ("field", "downcast"):
+            w_ = peel(w_[1])
+        if val[0] == "field" and w_[0] == "call" and tr.call_of(w_).name in ("checked_sub", "checked_add") and len(tr.call_of(w_).args) == 2:
+            cc_ = tr.call_of(w_)
+            a_s = [peel(x) for x in leaves(tr.expand(tr.operand(cc_.g.b, cc_.args[0], cc_.loc)))]     # the field as read, or what an earlier write on the path stored
+            bnode = peel(tr.expand(tr.operand(cc_.g.b, cc_.args[1], cc_.loc)))
+            if any(a[0] == "field" and a[2] == fname for a in a_s) and bnode[0] == "const" and bnode[3] == "1":
                 out.append((i, j, fname, "step"))
     for c in g.calls():
         if c.name in ("push_back", "push", "push_front", "insert") and c.args:
@@ -290,6 +302,14 @@ def _check_window(facts, tr, rep, rl, W):
                or (op in ("Ne",) and mentions_field(tr, x, fname) and y[0] == "const" and y[3] == "0") \
                or (op == "Ge" and mentions_field(tr, x, fname) and y[0] == "const" and y[3] == "1"):
                 guard = (e, c)
+            # `remaining.checked_sub(1)` answered Some: remaining >= 1
+        for e in dominating_edges(tr, W, i):
+            if e["kind"] == "enum" and e["label"] == "Some" and e["node"][0] == "call" and tr.call_of(e["node"]).name == "checked_sub":
+                cc_ = tr.call_of(e["node"])
+                a_s = [peel(x) for x in leaves(tr.expand(tr.operand(cc_.g.b, cc_.args[0], cc_.loc)))]
+                b_ = peel(tr.expand(tr.operand(cc_.g.b, cc_.args[1], cc_.loc)))
+                if any(a_[0] == "field" and a_[2] == fname for a_ in a_s) and b_[0] == "const" and b_[3] == "1":
+                    guard = (e, ("Ge", a_s[0], b_))
         rep.ob("C02.CAPACITY", skey(W, "consume#%d" % n), guard is not None, g.where(i, j),
                "consume-write is dominated by the capacity guard (%s)" % g.where(guard[0]["bb"]) if guard else
                "consume-write of %s.%s is not dominated by a capacity guard (used < limit_for_period / remaining > 0)" % (short, fname))
